@@ -10,7 +10,7 @@ import intervals
 
 PANIC_CALLS = re.compile(r"(^|::)(panic|panic_fmt|panic_display|panic_str|panic_explicit|unreachable_display|assert_failed|expect_failed|unwrap_failed|panic_const::.*|panic_nounwind|begin_panic)$")
 EXPECTS = re.compile(r"^(std|core)::(option::Option|result::Result)::(expect|unwrap|expect_err|unwrap_err)$")
-SLICE_INDEX = re.compile(r"<impl (std::ops::)?Index(Mut)?<I> for (\[T\]|\[T; N\]|std::vec::Vec<T, A>|str|std::string::String)>::index(_mut)?$|^std::slice::<impl \[T\]>::(copy_from_slice|split_at|split_at_mut)$|^std::vec::Vec<T, A>::(remove|swap_remove|insert|drain|split_off|truncate)$")
+SLICE_INDEX = re.compile(r"<impl (std::ops::)?Index(Mut)?<I> for (\[T\]|\[T; N\]|std::vec::Vec<T, A>|str|std::string::String)>::index(_mut)?$|^(std|core)::slice::<impl \[T\]>::(copy_from_slice|clone_from_slice|split_at|split_at_mut|swap|rotate_left|rotate_right|chunks|chunks_exact|windows|copy_within)$|^(std|alloc)::vec::Vec<T, A>::(remove|swap_remove|insert|drain|split_off)$|^(std|core)::str::<impl str>::(split_at|split_at_mut)$|^(std|alloc)::string::String::(remove|insert|insert_str|split_off|drain|replace_range)$")
 LOSSY = re.compile(r"::num::<impl (u8|u16|u32|u64|usize|u128)>::(checked_shl|wrapping_shl|overflowing_shl|unbounded_shl|wrapping_add|wrapping_sub|wrapping_mul|overflowing_add|overflowing_sub|overflowing_mul|unchecked_add|unchecked_sub|unchecked_mul|unchecked_shl)$")
 WIDTH = {"u8": 8, "u16": 16, "u32": 32, "u64": 64, "usize": 64, "i32": 32, "i64": 64, "isize": 64, "u128": 128}
 
@@ -264,7 +264,12 @@ def known_some(atoms, e):
 
 
 def discharge_index(o, array_len=None, typeb=None):
-    """`s[a..b]`, `s[..b]`, `s[a..]` : a <= b <= len(s)"""
+    """`s[a..b]`, `s[..b]`, `s[a..]` : a <= b <= len(s);  `s.split_at(n)` : n <= len(s)"""
+    if o.kind in ("call:split_at", "call:split_at_mut") and len(o.ops) == 2:
+        # same obligation as `s[..n]`
+        rng = ("agg", "adt", "std::ops::RangeTo", "RangeTo", 0, (o.ops[1],))
+        o2 = Obl(o.fn, "call:index", (o.ops[0], rng), o.atoms, o.loc, o.macs)
+        return discharge_index(o2, array_len, typeb)
     if not o.kind.startswith("call:index"):
         return None
     s, rng = o.ops[0], o.ops[1]
